@@ -884,10 +884,10 @@ func (f *Frame) clearMapStep(mv ssa.Value, st State) State {
 	}
 	mdn := mapDomComp(ks, vs)
 	md := st.Heap.Comp(mdn, ArraySort(SInt, ArraySort(ks, SBool)))
-	ms := st.Heap.Comp(mapSizeComp, ArraySort(SInt, SInt))
+	ms := st.Heap.Comp(mapSizeComp(ks, vs), ArraySort(SInt, SInt))
 	nmd := Ite(Eq(m, IntLit(0)), md, Store(md, m, ConstArray(ArraySort(ks, SBool), False)))
 	nms := Ite(Eq(m, IntLit(0)), ms, Store(ms, m, IntLit(0)))
 	st.Heap = st.Heap.Set(mdn, vc.Define("h."+mdn, nmd))
-	st.Heap = st.Heap.Set(mapSizeComp, vc.Define("h.MS", nms))
+	st.Heap = st.Heap.Set(mapSizeComp(ks, vs), vc.Define("h.MS", nms))
 	return st
 }
